@@ -325,6 +325,15 @@ impl Net {
         wake(&mut p.writer_waker);
     }
 
+    /// Has the peer of `me` asked it to stop sending on stream `id` (is the request known to `me`'s transport)?
+    pub fn write_side_stopped(&self, me: usize, id: u64) -> bool {
+        let mut g = self.lock();
+        if !g.streams.contains_key(&id) {
+            return false;
+        }
+        g.stream(id).pipe_w(me).map(|p| p.stop.is_some()).unwrap_or(false)
+    }
+
     pub fn raw_close(&self, side: usize, code: u64) {
         self.lock().close(side, code, b"script");
     }
